@@ -62,12 +62,13 @@ Definition out_eqb (a b : list bytes * list nat) : bool :=
 
 (* ---- case types ---- *)
 Definition crule := (list ctf * list nat * bool)%type.                 (* ts, prefix ids, multiMatch *)
-Definition ccall := (nat * (nat * nat * bytes) * nat)%type.            (* rule index, (variable, key pointer id, value), position *)
-Definition cdump := ((nat * nat * nat * nat) * bytes * bytes * list nat)%type.  (* (kid,idx,var,pid), input, output, errs *)
+Definition ccall := (nat * (nat * nat * nat) * nat)%type.              (* rule index, (variable, key pointer id, index of the value), position *)
+Definition cdump := ((nat * nat * nat * nat) * nat * bytes * list nat)%type.    (* (kid,idx,var,pid), index of the input, output, errs *)
 
 Inductive case :=
   (* direct calls of Rule.transformArg / transformMultiMatchArg on one cache *)
-  | CD (rules : list crule) (calls : list ccall) (obs : list (list bytes * list nat)) (dump : list cdump)
+  | CD (rules : list crule) (vals : list bytes) (calls : list ccall) (obs : list (list bytes * list nat))
+       (dump : list cdump + nat)        (* the real cache at the end, or only its size *)
   (* one phase of a real transaction: per rule, the values its transformations were applied to
      (recorded in the identity-prefixed run), the values the operator saw, the logged error lists *)
   | CW (rules : list (list ctf * bool)) (per_rule : list (list bytes * list bytes * list (list nat)))
@@ -79,13 +80,13 @@ Inductive case :=
 Definition to_rule (r : crule) : tc_rule ctf := mk_rule (fst (fst r)) (snd (fst r)) (snd r).
 Definition dflt_rule : tc_rule ctf := mk_rule [] [] false.
 
-Definition to_call (rs : list (tc_rule ctf)) (c : ccall) : tc_call ctf :=
-  let '(ri, (var, kid, val), idx) := c in mk_call (nth ri rs dflt_rule) (mk_arg var kid val) idx.
+Definition to_call (rs : list (tc_rule ctf)) (vals : list bytes) (c : ccall) : tc_call ctf :=
+  let '(ri, (var, kid, vi), idx) := c in mk_call (nth ri rs dflt_rule) (mk_arg var kid (nth vi vals [])) idx.
 
-Definition dump_ok (st : tc_state ctf) (d : cdump) : bool :=
+Definition dump_ok (st : tc_state ctf) (vals : list bytes) (d : cdump) : bool :=
   let '((kid, idx, var, pid), i, o, es) := d in
   match tc_find (mk_key kid idx var pid) (st_cache st) with
-  | Some e => bytes_eqb (e_in e) i && bytes_eqb (e_out e) o && nats_eqb (codes (tc_read (st_heap st) (e_errs e))) es
+  | Some e => bytes_eqb (e_in e) (nth i vals []) && bytes_eqb (e_out e) o && nats_eqb (codes (tc_read (st_heap st) (e_errs e))) es
   | None => false
   end.
 
@@ -96,12 +97,14 @@ Definition canon (l : list nat) : list nat := map (fun x => first_index x l 0) l
 
 Definition ok (c : case) : bool :=
   match c with
-  | CD rules calls obs dump =>
+  | CD rules vals calls obs dump =>
     let rs := map to_rule rules in
-    let '(outs, st) := tc_eval_calls ctf ctf_apply (map (to_call rs) calls) tc_empty in
+    let '(outs, st) := tc_eval_calls ctf ctf_apply (map (to_call rs vals) calls) tc_empty in
     list_eqb out_eqb (map (fun o => (fst o, codes (snd o))) outs) obs &&
-    Nat.eqb (length (st_cache st)) (length dump) &&
-    forallb (dump_ok st) dump
+    match dump with
+    | inl d => Nat.eqb (length (st_cache st)) (length d) && forallb (dump_ok st vals) d
+    | inr n => Nat.eqb (length (st_cache st)) n
+    end
   | CW rules per_rule =>
     Nat.eqb (length rules) (length per_rule) &&
     forallb (fun rp =>
